@@ -312,6 +312,12 @@ class SourceIndex(object):
 
     def func(self, qualname):
         f = self.functions.get(qualname)
+        if f is None and qualname.count('.') >= 2:
+            # a method that is now inherited (the override was merged into a base class): the implementation the class uses
+            cq, meth = qualname.rsplit('.', 1)
+            k = self.classes.get(cq)
+            if k is not None:
+                f = k.find_method(meth)
         if f is None:
             raise AnalysisError('anchor function %s not found' % qualname)
         return f
